@@ -246,6 +246,14 @@ impl HotReloader {
     }
 }
 
+#[cfg(assets_manager_verif)]
+impl HotReloader {
+    /// Number of messages sent to the reloader thread and not yet taken by it.
+    pub(crate) fn verif_msgs_pending(&self) -> usize {
+        self.sender.len()
+    }
+}
+
 impl fmt::Debug for HotReloader {
     fn fmt(&self, f: &mut fmt::Formatter<'_>) -> fmt::Result {
         f.pad("HotReloader { .. }")
@@ -269,7 +277,11 @@ fn hot_reloading_thread(
     loop {
         // We don't use `select` method here as we always want to check
         // `cache_msg` channel first.
+        #[cfg(assets_manager_verif)]
+        crate::verif::yield_point("hr-thread-before-ready");
         let ready = select.ready();
+        #[cfg(assets_manager_verif)]
+        crate::verif::yield_point("hr-thread-after-ready");
 
         loop {
             match cache_msg.try_recv() {
